@@ -1,11 +1,12 @@
 """C07 Grammar binarization preserves every rule's yield function."""
+import os
 import itertools
 import collections
 from .. import model, lcfrs
-from ..runner import Result
+from ..runner import Result, scratch
 from ..bridge import quiet
 
-from trees import grammar
+from trees import grammar, grammaroutput
 
 ID = 'C07'
 LEVEL = 'exploration'
@@ -43,7 +44,7 @@ def plan(tier, seed):
                 '(%d rules) as a one-rule grammar x {no reordering, optimal} x {deterministic} U {Markov v,h in '
                 '0..3 x nofanout on/off}%s; plus every grammar extracted from single trees of all shapes n <= N '
                 'with unique and with all-equal labels (so that one production has several linearizations), deterministic and '
-                'Markov modes: every rule recoverable by composition; deterministic: un-binarized by the reference. non-trivial = distinct (rule, mode) cases of '
+                'Markov modes: every rule recoverable by composition; deterministic: un-binarized by the reference; all-equal labels: the RCG and PMCFG files of the binarized grammar decode to the same yield functions. non-trivial = distinct (rule, mode) cases of '
                 'rank > 2' % (R, V, lins, '' if tier != 'quick' else ' (quick: Markov grid v,h in {0,1,3} only for rank <= 4)'),
         'bound': 'rank <= %d, variables <= %d' % (R, V),
         'exhaustive': True,
@@ -139,6 +140,21 @@ def check_extracted(mtj, cfg):
                         'detail': 'no chain of the binarized grammar composes to: %s [tree %s, mode %r]'
                                   % ('; '.join(lost[:3]), model.mt_str(mt.root, mt.toks), cfg),
                         'what': 'binarize: a rule of an extracted grammar is not recoverable by composition'})
+        if all(not f[0][-1:].isdigit() for f in eg):
+            # the yield functions as they reach the grammar files (labels the RCG format can carry)
+            from . import c09
+            dest = os.path.join(scratch(), 'c07g%d' % os.getpid())
+            for fmt, dec in (('rcg', c09.decode_rcg), ('pmcfg', c09.decode_pmcfg)):
+                getattr(grammaroutput, fmt)(result, {}, dest, 'utf-8')
+                try:
+                    got = dec(c09.read(dest + '.' + fmt, 'utf-8'))
+                except c09.Bad as e:
+                    got = 'malformed: %s' % e
+                if got != c09.totals(result):
+                    out.append({'kind': 'written-yield', 'where': 'grammaroutput.' + fmt, 'case': case,
+                                'detail': 'the %s file of the binarized grammar decodes to %r, the grammar is %r [tree %s, mode %r]'
+                                          % (fmt, got, c09.totals(result), model.mt_str(mt.root, mt.toks), cfg),
+                                'what': 'the written binarized grammar has different yield functions'})
         if cfg['markov'] is not None:
             return out
         back = lcfrs.unbinarize(result, is_bin)
